@@ -373,6 +373,17 @@ def run_parts(parts, seed=0, serial=False, log=None):
                 _run_bfs(pi, part, tot, pool, seed, log)
             tot["wall_s"] = time.time() - t0
             results[part.name] = tot
+            if os.environ.get("VERIF_FAIL_FAST") and any(v.get("sig") is None for _, _, v in tot["viols"]):
+                # detection runs (tools/mutant.sh, seed evaluation): the verdict is already "violation"; the remaining parts are skipped and the
+                # evidence of such a run says so (registered commands never set this variable)
+                log(f"  VERIF_FAIL_FAST: stopping after part {part.name}")
+                for rest in _PARTS[pi + 1:]:
+                    r = _empty_total()
+                    r["exhaustive"] = False
+                    r["notes"].append("skipped: VERIF_FAIL_FAST and an earlier part already reported a violation")
+                    r["wall_s"] = 0.0
+                    results[rest.name] = r
+                break
             log(f"  part {part.name}: cases={tot['evals']} states={tot['states']} "
                 f"transitions={tot['trans']} outcomes={len(tot['outcomes'])} "
                 f"violations={tot['nviol']} {tot['wall_s']:.1f}s")
